@@ -83,7 +83,7 @@ func c13Policies(ctx *core.Ctx) [][]spec.Op {
 var raceBlockRe = regexp.MustCompile(`(?s)WARNING: DATA RACE.*?==================`)
 
 func runC13(ctx *core.Ctx) {
-	ctx.Rule = "7 shared policies (Strict, UGC, html-email, 3 generated with overlapping element patterns, style rules in all scopes, URL callbacks, rewriter, and one with every default CSS handler) x a small input set x 64 goroutines x rounds, all entry points, binary built with -race (GORACE halt_on_error=0, reports read back from log_path); oracle: zero race reports touching bluemonday or its dependencies, every concurrent result equals the sequential baseline, repeated sequential calls agree (map-order independence), the baseline recomputed after the stress is unchanged, the reflection fingerprint of the policy is unchanged; non-trivial = a (policy, input) pair executed concurrently with a non-empty result, distinct by pair"
+	ctx.Rule = "7 shared policies (Strict, UGC, html-email, 3 generated with overlapping element patterns, style rules in all scopes, URL callbacks, rewriter, and one with every default CSS handler) x a small input set x 64 goroutines x rounds, all entry points, binary built with -race (GORACE halt_on_error=0, reports read back from log_path); oracle: zero race reports touching bluemonday or its dependencies, every concurrent result equals the sequential baseline, repeated sequential calls agree (map-order independence), the baseline recomputed after the stress is unchanged (the reflection fingerprint of the policy before/after is recorded as an observation); non-trivial = a (policy, input) pair executed concurrently with a non-empty result, distinct by pair"
 	ctx.Assume("the race detector generalises each executed interleaving by happens-before analysis but only over executed code; its shadow history is bounded, repeats compensate")
 	if !raceEnabled() && !ctx.Replaying {
 		ctx.Inconclusive("the monitor binary was not built with -race")
@@ -255,7 +255,10 @@ func c13Stress(ctx *core.Ctx, only int) {
 			cs.EvalN(2 * G)
 			cs.Count("cold_start_concurrent_calls", 2*G)
 		}
-		// concurrent stress
+		// concurrent stress, on a policy instance that has never sanitised anything: whatever the
+		// sanitiser initialises or caches lazily is first touched under contention
+		stressPol := spec.Build(env.Ops)
+		fpStress0 := Fingerprint(stressPol)
 		var wg sync.WaitGroup
 		var mism int64
 		var overlap [4]int64
@@ -283,7 +286,7 @@ func c13Stress(ctx *core.Ctx, only int) {
 								break
 							}
 						}
-						got := SanitizeVia(env.Pol, inputs[i], g+round+i)
+						got := SanitizeVia(stressPol, inputs[i], g+round+i)
 						atomic.AddInt64(&inFlight, -1)
 						if (g+i)%16 == 0 { // a different policy in the same goroutines: state shared between policies shows here
 							if o := other.Sanitize(inputs[i]); o != otherBase[i] && atomic.AddInt64(&mism, 1) <= 3 {
@@ -307,7 +310,7 @@ func c13Stress(ctx *core.Ctx, only int) {
 		cs.Count("concurrent_calls", G*rounds*nIn)
 		// after the stress
 		for i, in := range inputs {
-			if got := env.Pol.Sanitize(in); got != base[i] {
+			if got := stressPol.Sanitize(in); got != base[i] {
 				cs.Violate("C13:baseline-changed-after-stress:"+firstDiffToken(got, base[i]), fmt.Sprintf("after the stress Sanitize returns %q, before it returned %q; input=%q", core.Clip(got, 200), core.Clip(base[i], 200), core.Clip(in, 200)), wit(i, map[string]interface{}{"got": core.Show(got)}))
 				break
 			}
@@ -315,8 +318,11 @@ func c13Stress(ctx *core.Ctx, only int) {
 				cs.Nontrivial(core.Hash(fmt.Sprint(cs.Index), in))
 			}
 		}
-		if fp1 := Fingerprint(env.Pol); fp1 != fp0 {
-			cs.Violate("C13:policy-mutated", fmt.Sprintf("the policy's reflection fingerprint changed from %s to %s while sanitising", fp0, fp1), map[string]interface{}{"policy": spec.Describe(env.Ops), "ops": env.Ops})
+		// The reflection fingerprint is an observation, not a verdict: state that changes inside the
+		// policy without any observable effect (no race report, no differing result, unchanged later
+		// behaviour) does not refute the property, e.g. a cache filled under a lock.
+		if fp1, fp2 := Fingerprint(env.Pol), Fingerprint(stressPol); fp1 != fp0 || fp2 != fpStress0 {
+			cs.Count("policies_whose_internal_state_changed_while_sanitising", 1)
 		}
 		cs.Count("policies_stressed", 1)
 		cs.Sample("policy", map[string]interface{}{"policy": spec.Describe(env.Ops), "inputs": nIn, "goroutines": G, "rounds": rounds, "example_input": core.Show(core.Clip(inputs[0], 200)), "fingerprint": fp0})
